@@ -1,0 +1,31 @@
+//go:build verif
+
+// Contracts for state-token lifetime and the call cache (property C15). Comment-only.
+
+package vgirpc
+
+// checkTokenAge: refused exactly when the token is older than the configured TTL.
+//
+//@ func (*HttpServer).checkTokenAge
+//@   property C15
+//@   requires h != nil
+//@   modifies nothing
+//@   ensures [ttl] (result == nil) <==> sinceNs(unixTime(createdAt, 0)) <= h.tokenTTL
+
+// A cached call never outlives the token that names it: every cache insertion is stamped with
+// the creation time carried by the (authenticated) call token, on the minting path and on the
+// cache-miss path alike, and only after the token's age and call id were checked.
+//
+//@ func (*HttpServer).packCallToken
+//@   property C15
+//@   at call (*callStateCache).put assert [stamp] arg1 == callID && arg2 == auth && arg4 == data.CreatedAt
+//
+//@ func (*HttpServer).resolveCall
+//@   property C15
+//@   requires h != nil && cursor != nil
+//@   at call (*callStateCache).put assert [stamp] arg1 == cursor.CallID && arg2 == auth && arg4 == data.CreatedAt
+//@   at call (*callStateCache).put assert [checked] sinceNs(unixTime(data.CreatedAt, 0)) <= h.tokenTTL && data.CallID == cursor.CallID
+//
+//@ func (*callStateCache).put
+//@   property C15
+//@   at call "(time.Time).Add" assert [expiry] arg0 == unixTime(createdAt, 0) && arg1 == c.ttl
